@@ -333,6 +333,9 @@ type loopScenario struct {
 	AskEvery  int   `json:"ask_every"`
 	BothWays  bool  `json:"both_ways"`
 	HoldMS    int   `json:"hold_ms"` // keep the connection idle this long before a second burst
+	// RecreateReceiver: after the first round the receiving actor on B is terminated by its own system and a new actor is
+	// spawned under the same name; a second round follows (the link stayed up all the time)
+	RecreateReceiver bool `json:"recreate_receiver,omitempty"`
 }
 
 func startRemotingSystem() (*actor.System, string, error) {
@@ -362,8 +365,12 @@ func runLoopback(sc *loopScenario, seed int64) ([]map[string]any, error) {
 	}
 	defer func() { go b.Stop(2 * time.Second) }()
 	var expected atomic.Int64
+	gone := make(chan struct{}, 4)
 	receiver := func(name string) vivid.ActorFN {
 		return func(ctx vivid.ActorContext) {
+			if k, ok := ctx.Message().(*vivid.OnKilled); ok && k.Ref.Equals(ctx.Ref()) {
+				gone <- struct{}{}
+			}
 			if m, ok := ctx.Message().(*rmsg); ok {
 				src := ""
 				if s := ctx.Sender(); s != nil {
@@ -440,6 +447,29 @@ func runLoopback(sc *loopScenario, seed int64) ([]map[string]any, error) {
 		wg.Wait()
 	}
 	round(0)
+	if sc.RecreateReceiver {
+		// everything of the first round has arrived before the receiver goes away
+		dl := time.Now().Add(6 * time.Second)
+		for time.Now().Before(dl) && rec.count.Load() < expected.Load() {
+			time.Sleep(time.Millisecond)
+		}
+		old, err := b.FindActor(addrB + "/recvB")
+		if err != nil {
+			return nil, err
+		}
+		b.Kill(old, false, "recreate")
+		select {
+		case <-gone:
+		case <-time.After(3 * time.Second):
+			return nil, fmt.Errorf("the receiver did not terminate")
+		}
+		time.Sleep(10 * time.Millisecond)
+		if _, err := b.ActorOf(receiver("/recvB"), vivid.WithActorName("recvB")); err != nil {
+			return nil, fmt.Errorf("the receiver's name could not be re-used: %w", err)
+		}
+		time.Sleep(10 * time.Millisecond)
+		round(2)
+	}
 	if sc.HoldMS > 0 {
 		time.Sleep(time.Duration(sc.HoldMS) * time.Millisecond)
 		round(1)
@@ -585,6 +615,12 @@ func checkC11(c *core.Ctx) {
 			AskEvery: []int{0, 3, 7}[rng.Intn(3)], BothWays: rng.Intn(2) == 0}
 		if len(sc.Sizes) == 1 && sc.Sizes[0] >= 1<<20 {
 			sc.PerSender = 3
+		}
+		if i%4 == 1 {
+			sc.RecreateReceiver = true
+			if sc.PerSender > 40 {
+				sc.PerSender = 40
+			}
 		}
 		if i == 0 {
 			// one scenario keeps its connections open and idle for a while before using them again
